@@ -9,8 +9,8 @@ namespace Pulsar
 /-! ## `checkInitialized` walk (reflection `Range` over message-typed fields, recursively)
 
   Since the nil-receiver fix (known-findings: C09, c454db6) `Range` on a nil message visits nothing, so
-  a nil element no longer makes the walk panic; what remains is a typed-nil oneof wrapper, which
-  `Range` dereferences (`case *W: v := o.F`). -/
+  a nil element no longer makes the walk panic, and since fix 424cbe1 a typed-nil oneof wrapper is
+  skipped as well: the walk can no longer panic (theorem `walkPanics_false`-style lemmas in Proofs). -/
 
 def nilRangePanics (_S : Schema) (_i : Nat) : Bool := false
 
@@ -25,7 +25,7 @@ def walkFields (S : Schema) : Nat → List (FieldDesc × Val) → Bool
   | _, [] => false
   | fuel, (f, v) :: rest =>
     (match f.shape, f.elem, v with
-     | _, _, .oneNil => true                                     -- `case *W: v := o.F` on a typed-nil wrapper
+     | _, _, .oneNil => false                                    -- `case *W: if o == nil { break }` (fix 424cbe1)
      | .singular, .message i, v => !v.isNone && walkPanics S fuel i v
      | .oneof _, .message i, .one x => walkPanics S fuel i x
      | .repeated _, .message i, v => v.elems.any (fun x => walkPanics S fuel i x)
@@ -56,7 +56,9 @@ def implMarshalAppend (S : Schema) (o : MOpts) (fuel : Nat) (i : Nat) (pre : Byt
     then `checkInitialized` — skipped when DiscardUnknown is set, because the closure echoes
     `input.Flags` as output flags and input bit 0 (DiscardUnknown) is output bit 0 (Initialized). -/
 def implUnmarshal (S : Schema) (o : UOpts) (i : Nat) (m0 : Val) (bs : Bytes) : Res Val :=
-  let start := if o.merge then m0 else (if m0.isNone then m0 else emptyMsg S i)
+  -- without Merge the generated `Reset()` (`*x = T{}`) dereferences the target: nil ⇒ panic
+  if !o.merge && m0.isNone then .panic else
+  let start := if o.merge then m0 else emptyMsg S i
   match implUnmarshalClosure S o (bs.length + 1) 10000 i start bs with
   | .ok v => if !o.discard && walkPanics S (bs.length + 2) i v then .panic else .ok v
   | .err e => .err e
